@@ -13,7 +13,7 @@ use hxlib::*;
 use std::sync::{mpsc, Arc};
 use std::time::Duration;
 
-const WATCHDOG: Duration = Duration::from_secs(25);
+const WATCHDOG: Duration = Duration::from_secs(90);
 
 struct World {
   core: mockcore::Handle,
